@@ -76,7 +76,7 @@ def coq_hint(h):
     # hints beartype reduces to another hint before generating code: the model is handed what they mean
     if t == 'tvar_constr':            # TypeVar('T', A, B, ...): any one of the constraints
         return f'(HUnion {coq_list([coq_hint(x) for x in h[1]])})'
-    if t in ('tvar_bound', 'newtype'):   # TypeVar('T', bound=H); NewType('N', C)
+    if t in ('tvar_bound', 'newtype', 'meta'):   # TypeVar('T', bound=H); NewType('N', C); Annotated[H, 'not a validator']
         return coq_hint(h[1])
     raise ValueError(h)
 
@@ -274,7 +274,7 @@ def gen_sat(rng, h, sizes=(0, 1, 2, 3)):
                 [gen_scalar(rng) for _ in range(rng.choice([0, 2]))]]
     if t in ('union', 'tvar_constr'):
         return gen_sat(rng, rng.choice(h[1]), sizes)
-    if t in ('tvar_bound', 'newtype'):
+    if t in ('tvar_bound', 'newtype', 'meta'):
         return gen_sat(rng, h[1], sizes)
     if t == 'optional':
         return ['none'] if rng.random() < 0.3 else gen_sat(rng, h[1], sizes)
